@@ -77,9 +77,10 @@ func phasesFor(prop, tier string, workers int) []phase {
 	switch prop {
 	case "C05":
 		if q {
-			return []phase{{"enumeration", false, workers, 0, 240, false}}
+			return []phase{{"enumeration", false, workers, 0, 240, false}, {"enumeration-process-per-run", false, workers, 12, 15, true}}
 		}
-		return []phase{{"enumeration", false, workers, 0, 3000, false}, {"enumeration-race-sample", true, workers, 40, 600, false}}
+		return []phase{{"enumeration", false, workers, 0, 3000, false}, {"enumeration-race-sample", true, workers, 40, 600, false},
+			{"enumeration-process-per-run", false, workers, 1500, 300, true}}
 	case "C04":
 		if q {
 			return []phase{{"history-search", false, workers, 250, 60, false}, {"history-search-race", true, workers, 70, 60, false},
@@ -244,11 +245,35 @@ func main() {
 				common := []string{"--prop", prop, "--tier", *tier, "--seed", strconv.FormatUint(seed, 10),
 					"--worker", strconv.Itoa(w), "--workers", strconv.Itoa(ph.Workers), "--realdir", rd, "--emit-keys"}
 				if !ph.Isolate {
-					o := runWorker(bins[ph.Race], 0, "", append(common, "--runs", strconv.Itoa(runs), "--first", strconv.Itoa(first), "--budget-s", fmt.Sprint(ph.BudgetS))...)
-					o.worker = w
-					omu.Lock()
-					outs = append(outs, o)
-					omu.Unlock()
+					// A worker that had to abandon parked goroutines (a run that ended in a
+					// deadlock or exhausted its budget) cannot run another simulation: its
+					// successor carries on with the next run.
+					next, remaining := first, runs
+					for attempt := 0; attempt < 400; attempt++ {
+						left := ph.BudgetS - time.Since(t0).Seconds()
+						if left <= 0 && attempt > 0 {
+							break
+						}
+						o := runWorker(bins[ph.Race], 0, "", append(common, "--runs", strconv.Itoa(remaining), "--first", strconv.Itoa(next), "--budget-s", fmt.Sprint(left))...)
+						o.worker = w
+						omu.Lock()
+						outs = append(outs, o)
+						omu.Unlock()
+						if o.rep == nil || o.code != 0 || !o.rep.Tainted || len(o.rep.Failures) > 0 || o.rep.Harness != "" {
+							break
+						}
+						done := o.rep.NextIdx - next
+						if done <= 0 {
+							break
+						}
+						next = o.rep.NextIdx
+						if runs > 0 {
+							remaining -= done
+							if remaining <= 0 {
+								break
+							}
+						}
+					}
 					return
 				}
 				// one process per run: whatever the library keeps outside the detector tree starts afresh
